@@ -265,6 +265,12 @@ def check_load_tree(ctx):
 
         p = path_avoiding(an, fn, binds[0], lambda n: n is head, is_gateway, edge_filter=env_guard_edge,
                           exceptions=False)
+        for n in g.nodes:
+            if is_gateway(n) and n.kind == "call" and len(n.ast.args) >= 2:
+                k_ok = any(k == "iter" and pl[1] == 0 for k, pl in value_sources(fn, n.ast.args[0], n))
+                v_ok = not any(k == "iter" and pl[1] == 0 for k, pl in value_sources(fn, n.ast.args[1], n))
+                ctx.ob("load.key-value-order", fn, n.ast, k_ok and v_ok, "_set_value(key, value) receives the tree's key and its value" if k_ok and v_ok else
+                       "_set_value is not handed (key, value) of the tree entry in that order", node=n)
         ctx.ob("load.every-key", fn, head.ast.iter, p is None,
                "every iteration reaches _set_value(key, ...) unless it leaves through the environment-skip guard"
                if p is None else "an iteration can finish without _set_value: %s" %
@@ -608,6 +614,13 @@ def check_validate_chain(ctx):
             if not ok:
                 break
         ctx.ob("validate.chain", f, "%s: required -> _validate -> validator" % f.qualname, ok, why)
+        for n in g.nodes:
+            if n.kind == "call" and isinstance(n.ast.func, ast.Attribute) and n.ast.func.attr in ("validator", "_validate") and len(n.ast.args) == 2:
+                a0, a1 = n.ast.args
+                okc = all(k == "param" and p == params[1] for k, p in value_sources(f, a0, n)) and not (
+                    isinstance(a1, ast.Name) and a1.id == params[1])
+                ctx.ob("validate.call-args", f, n.ast, okc, "called with (cfg, value)" if okc else
+                       "%s is not called with (cfg, value): validators receive their arguments in the wrong order" % ast.unparse(n.ast.func), node=n)
 
 
 def check_container_validators(ctx):
@@ -694,6 +707,68 @@ def check_container_validators(ctx):
                 ctx.ob("container.returns-own-proxy", f, r.ast, ok, why, node=r)
 
 
+def check_key_lemma(ctx):
+    """L1: a field stored under name k in a field table is told that its key is k."""
+    an, model = ctx.an, ctx.model
+    n = 0
+    for fn in (model.method("Schema", "_add_field"), model.method("Config", "_set_value")):
+        g = an.cfg(fn)
+        for node in g.nodes:
+            for owner, op, key, val in container_mutations(an, fn, node, "_fields"):
+                if op != "setitem" or key is None:
+                    continue
+                n += 1
+                # the __setkey__ call that follows must name the same key
+                sk = [m for m in g.nodes if m.kind == "call" and isinstance(m.ast.func, ast.Attribute) and m.ast.func.attr == "__setkey__"]
+                ok = False
+                for m in sk:
+                    if len(m.ast.args) >= 2 and same_name_value(fn, m.ast.args[1], m, key, node) and \
+                            g.path(node, lambda x, m=m: x is m, may_raise=lambda x: False, from_successors=True):
+                        ok = True
+                ctx.ob("lemma.key-invariant", fn, node.ast, ok,
+                       "the field registered under %s is told the same key through __setkey__" % ast.unparse(key) if ok else
+                       "the field registered under %s is not given that key: values are stored under a key the field table does not know" % ast.unparse(key),
+                       node=node)
+    ctx.need(n >= 2, "field table stores not found")
+    bsk = model.method("BaseField", "__setkey__")
+    sets = any(isinstance(x, ast.Assign) and any(isinstance(t, ast.Attribute) and t.attr == "_key" for t in x.targets) and isinstance(x.value, ast.Name)
+               and x.value.id == bsk.positional_params[2] for x in ast.walk(bsk.node))
+    ctx.ob("lemma.key-invariant", bsk, "self._key = key", sets, "BaseField.__setkey__ records the key" if sets else "BaseField.__setkey__ no longer records the key")
+
+
+def check_type_gates(ctx):
+    """every validator that does not start from a validating parent rejects values of the wrong type"""
+    an, model = ctx.an, ctx.model
+    Field = model.cls("Field")
+    for c in Field.subclasses(strict=True):
+        f = c.methods.get("_validate")
+        if f is None or len(f.positional_params) < 3:
+            continue
+        g = an.cfg(f)
+        vparam = f.positional_params[2]
+        chained = any(n.kind == "call" and FnTypes.is_super_call(n.ast.func) and n.ast.func.attr == "_validate" for n in g.nodes)
+        if chained:
+            continue
+        gate = False
+        for t in g.nodes:
+            e = t.ast
+            if t.kind == "test" and isinstance(e, ast.Call) and isinstance(e.func, ast.Name) and e.func.id == "isinstance" and \
+                    isinstance(e.args[0], ast.Name) and e.args[0].id == vparam:
+                gate = True
+        # a path from entry to a normal return that takes only False edges of isinstance(value, ...) tests = wrong type accepted
+        def not_matching(a, b, lbl):
+            e = a.ast
+            if a.kind == "test" and isinstance(e, ast.Call) and isinstance(e.func, ast.Name) and e.func.id == "isinstance" and \
+                    isinstance(e.args[0], ast.Name) and e.args[0].id == vparam and lbl is True:
+                return False
+            return True
+        p = g.path(g.entry, lambda n: n.kind == "return", may_raise=lambda n: False, edge_filter=not_matching) if gate else [g.entry]
+        ctx.ob("validator.type-gate", f, "%s._validate rejects values of the wrong type" % c.name, gate and p is None,
+               "a value matching none of the accepted types ends in raise" if gate and p is None else
+               "%s._validate %s: a value of the wrong type is handed on / stored" % (c.name, "has no type test" if not gate else
+                                                                                     "can return without any isinstance(value, ...) test having matched"))
+
+
 def check_shared_constraints(ctx):
     """C05.1/2/3 re-evaluated here: a validated gateway keeps invalid values out only if the bounds,
     lengths and normalisation it enforces are the declared ones."""
@@ -707,6 +782,8 @@ def check_shared_constraints(ctx):
 
 def check(ctx):
     check_gateway(ctx)
+    check_key_lemma(ctx)
+    check_type_gates(ctx)
     check_container_validators(ctx)
     check_shared_constraints(ctx)
     check_validate_chain(ctx)
